@@ -22,6 +22,12 @@ func newStreamReader(r *Remote) *streamReader {
 	}
 }
 
+var errInvalidIndex = errors.New("envelope message refers to an index outside its lookup tables")
+
+func validIndex(i int32, n int) bool {
+	return i >= 0 && int(i) < n
+}
+
 func (r *streamReader) Receive(stream DRPCRemote_ReceiveStream) error {
 	defer slog.Debug("streamreader terminated")
 
@@ -36,6 +42,11 @@ func (r *streamReader) Receive(stream DRPCRemote_ReceiveStream) error {
 		}
 
 		for _, msg := range envelope.Messages {
+			// The indices come from the peer: never trust them.
+			if !validIndex(msg.TypeNameIndex, len(envelope.TypeNames)) || !validIndex(msg.TargetIndex, len(envelope.Targets)) {
+				slog.Error("streamReader receive", "err", errInvalidIndex)
+				return errInvalidIndex
+			}
 			tname := envelope.TypeNames[msg.TypeNameIndex]
 			payload, err := r.deserializer.Deserialize(msg.Data, tname)
 
@@ -46,6 +57,10 @@ func (r *streamReader) Receive(stream DRPCRemote_ReceiveStream) error {
 			target := envelope.Targets[msg.TargetIndex]
 			var sender *actor.PID
 			if len(envelope.Senders) > 0 {
+				if !validIndex(msg.SenderIndex, len(envelope.Senders)) {
+					slog.Error("streamReader receive", "err", errInvalidIndex)
+					return errInvalidIndex
+				}
 				sender = envelope.Senders[msg.SenderIndex]
 			}
 			r.remote.engine.SendLocal(target, payload, sender)
